@@ -29,7 +29,7 @@ def c15_r1(ctx):
         ctx.check(good, key(fi, "identity"), f"base hook {name} must be `return {params[0] if params else '?'}` and nothing else", fi.loc(), okmsg=f"Plugin.{name} is the identity")
 
 
-@rule("C15.R2", "hooks are applied to every plugin in configuration order, threading the result", min_instances=29)
+@rule("C15.R2", "hooks are applied to every plugin in configuration order, threading the result", min_instances=28)
 def c15_r2(ctx):
     repo = ctx.repo
     pm = repo.cls(PM)
@@ -51,11 +51,7 @@ def c15_r2(ctx):
     ctx.check(carried, key(ap, "loop-carried"), "each plugin must receive the result of the previous plugin (X = hook(X, ...)) and the loop must not exit early", ap.loc(), okmsg="X = hook(X, ...) for every plugin, no early exit, X returned")
     o0 = [x for x in Interp(ap, lambda e: None).run() if any("loop skipped" in t for t in x.trace)]
     ctx.check(len(o0) == 1 and norm(o0[0].value) == "obj", key(ap, "no plugins"), "without plugins the object must be returned unchanged", ap.loc(), okmsg="no plugins -> object unchanged")
-    init = repo.func(PM + ".__init__")
-    asg = [st for st in init.node.body if isinstance(st, (ast.Assign, ast.AnnAssign)) and norm(st.target if isinstance(st, ast.AnnAssign) else st.targets[0]) == "self.plugins"]
-    good = len(asg) == 1 and isinstance(asg[0].value, ast.ListComp) and norm(asg[0].value.generators[0].iter) == "plugins_types or []" and not asg[0].value.generators[0].ifs \
-        and norm(asg[0].value.elt).startswith(norm(asg[0].value.generators[0].target) + "(")
-    ctx.check(good, key(init, "order"), "plugins are not instantiated one per configured type, in order", init.loc(), okmsg="one instance per configured plugin type, in order")
+    # (how the plugin list is built - one instance per configured class, in order - is decided by C15.R18)
     ex = repo.func("plugins.explorer:get_plugins_types")
     lp = [n for n in ex.node.body if isinstance(n, ast.For)]
     good = len(lp) == 1 and norm(lp[0].iter) == ex.node.args.args[0].arg and all("classes.extend(" in norm(s) or "classes.append(" in norm(s) for s in ast.walk(lp[0]) if isinstance(s, ast.Expr))
